@@ -24,6 +24,10 @@ ALLOWED_AXIOMS = {"propext", "Classical.choice", "Quot.sound"}
 FORBIDDEN = re.compile(r"\b(sorry|admit|native_decide|bv_decide|implemented_by|unsafe)\b|^\s*axiom\s|maxHeartbeats\s+0\b")
 
 GOENV = dict(os.environ, GOFLAGS="-mod=mod", GOPROXY="off", GOSUMDB="off", GOTOOLCHAIN="local")
+# git-bug's keyring probes the desktop's secret service over D-Bus; without a session bus every process
+# (the harness, each run of the git-bug binary) auto-launches a dbus-daemon that stays behind. A dead
+# address makes the probe fail at once and the keyring falls through to its file backend, as it does anyway.
+GOENV.setdefault("DBUS_SESSION_BUS_ADDRESS", "unix:path=/nonexistent/verif-no-session-bus")
 
 
 def log(*a):
